@@ -7,7 +7,7 @@ CONSTANTS
   Uris = {"u1"}
   MaxText = 2
   Dump = FALSE
-INVARIANTS Valid RefusalsAreStutters Total RiwIdempotent FrameHolds
+INVARIANTS Valid RefusalsAreStutters Total RiwIdempotent FrameHolds L2MovesRefine
 PROPERTY StableIds
 CONSTRAINT TextBound
 CHECK_DEADLOCK FALSE
